@@ -117,6 +117,33 @@ EXEC_POSITIONS = [
     ("value-output", "echo $(($(echo 'a[$({Xq})]')))"),
 ]
 
+
+def _heredoc_lines():
+    """round seven (seeded change C01v: pending here-documents gathered in reverse order): SEVERAL here-documents on one
+    logical line - on one command, one per pipeline stage, one per list element - with quoted and unquoted delimiters, empty
+    and non-empty bodies; the command under test stands BEHIND the last terminator (a parser that disagrees with bash about
+    where the bodies end swallows it as text), or inside the first / last unquoted body."""
+    out = []
+    delims = [("A", "A"), ("'B'", "B"), ("C", "C")]
+    for n in (2, 3):
+        ds = delims[:n]
+        for joiner, label in ((" ", "one-command"), (" | cat ", "pipe"), (" && cat ", "and"), ("; cat ", "semi")):
+            head = "cat " + joiner.join("<<" + w for w, _ in ds)
+            bodysets = list(itertools.product(["", "x"], repeat=n)) if n == 2 else [("",) * n, ("x",) * n]
+            for bi, bodyset in enumerate(bodysets):
+                body = "".join((b + "\n" if b else "") + t + "\n" for b, (_w, t) in zip(bodyset, ds))
+                out.append((f"heredocs-{n}-{label}-{bi}-after", head + "\n" + body + "{X}"))
+            out.append((f"heredocs-{n}-{label}-first-body", head + "\n$({X})\n" + "".join(t + "\n" for _w, t in ds).rstrip("\n")))
+            last = "".join(t + "\n" for _w, t in ds[:-1]) + "$({X})\n" + ds[-1][1]
+            if "'" not in ds[-1][0]:
+                out.append((f"heredocs-{n}-{label}-last-body", head + "\n" + last))
+    out.append(("heredocs-2-in-cmdsub-after", "echo $(cat <<A <<B\nx\nA\ny\nB\n{X}\n)"))
+    out.append(("heredocs-2-group-after", "{ cat <<A; cat <<B; }\nx\nA\ny\nB\n{X}"))
+    return out
+
+
+EXEC_POSITIONS += _heredoc_lines()
+
 # positions where bash does NOT execute the text (quoting, comments, quoted here-documents):
 # the parser must not be fooled into running/approving differently from bash; nothing may run
 INERT_POSITIONS = [
